@@ -54,7 +54,10 @@ def check(chk, repo):
     for fi in sorted(reach, key=lambda f: f.fq):
         ws = eff.writes.get(fi.fq, {})
         arrs = array_params(fi)
+        is_root = any(fi.fq == r.fq for r in roots)
         for p in arrs:
+            if not is_root and (fi.fq, p) not in eff.borrowed_params:
+                continue  # this parameter never carries caller data (a heap, a scratch buffer, a local list, ...)
             n_params += 1
             hits = ws.get(p, [])
             if not hits:
